@@ -97,7 +97,8 @@ package plugin
 //@   call writeStanza#6 requires arg1 == "fail" && s.Type == "confirm" && c.Confirm == nil                                          [C16]
 //@   call writeStanza#7 requires arg1 == "fail" && s.Type == "confirm"                                                             [C16]
 //@   call writeStanza#8 requires arg1 == "ok" && s.Type == "confirm" && len(arg2) == 1 && (arg2[0] == "yes" || arg2[0] == "no")     [C16]
-//@   modifies conn.$out
+//@   modifies conn.$out, $handled
+//@   assumes#handled $handled == old($handled) + (ok ? 1 : 0)
 //@   ensures#known ok <==> (s.Type == "msg" || s.Type == "request-secret" || s.Type == "request-public" || s.Type == "confirm")     [C16]
 //@   ensures#unknownsilent !ok ==> err == nil && conn.$out == old(conn.$out)                                                       [C16]
 //@   ensures#confirmargs (s.Type == "confirm" && len(s.Args) != 1 && len(s.Args) != 2) ==> err != nil && conn.$out == old(conn.$out)   [C16]
@@ -122,6 +123,7 @@ package plugin
 //@   loop 1 invariant#accepted len(stanzas) == calls("writeStanza", 5) - old(calls("writeStanza", 5))                              [C16]
 //@   loop 1 invariant#labelsonce (isnil(labels) ==> calls("writeStanza", 6) == old(calls("writeStanza", 6))) && (!isnil(labels) ==> calls("writeStanza", 6) == old(calls("writeStanza", 6)) + 1)   [C16]
 //@   loop 1 invariant#noerrack calls("writeStanza", 7) == old(calls("writeStanza", 7))                                            [C16]
+//@   loop 1 invariant#answered calls("readStanza", 1) - old(calls("readStanza", 1)) == (calls("writeStanza", 5) - old(calls("writeStanza", 5))) + (calls("writeStanza", 6) - old(calls("writeStanza", 6))) + (calls("writeStanza", 8) - old(calls("writeStanza", 8))) + ($handled - old($handled))   [C16]
 //@   loop 1 invariant#phase1 calls("writeStanza", 1) == old(calls("writeStanza", 1)) + 1 && calls("writeStanza", 2) == old(calls("writeStanza", 2)) + 1 && calls("writeStanzaWithBody", 1) == old(calls("writeStanzaWithBody", 1)) + 1 && calls("writeStanza", 3) == old(calls("writeStanza", 3)) + 1 && calls("writeStanza", 4) == old(calls("writeStanza", 4)) + 1   [C16]
 //@   loop 1 decreases len(sr.r.$rem)
 //@   ensures#nonempty err == nil ==> len(stanzas) > 0 && len(stanzas) == calls("writeStanza", 5) - old(calls("writeStanza", 5))    [C16]
@@ -149,6 +151,7 @@ package plugin
 //@   loop 2 invariant conn != nil && conn.Writer != nil && sr != nil && sr.r != nil && i.ui != nil && i.ui == old(i.ui)
 //@   loop 2 invariant#keyonce (isnil(fileKey) ==> calls("writeStanza", 4) == old(calls("writeStanza", 4))) && (!isnil(fileKey) ==> calls("writeStanza", 4) == old(calls("writeStanza", 4)) + 1)   [C16]
 //@   loop 2 invariant#noerrack calls("writeStanza", 5) == old(calls("writeStanza", 5))                                            [C16]
+//@   loop 2 invariant#answered calls("readStanza", 1) - old(calls("readStanza", 1)) == (calls("writeStanza", 4) - old(calls("writeStanza", 4))) + (calls("writeStanza", 6) - old(calls("writeStanza", 6))) + ($handled - old($handled))   [C16]
 //@   loop 2 invariant#phase1 calls("writeStanza", 1) == old(calls("writeStanza", 1)) + 1 && calls("writeStanza", 2) == old(calls("writeStanza", 2)) + 1 && calls("writeStanza", 3) == old(calls("writeStanza", 3)) + 1 && calls("Marshal", 1) == old(calls("Marshal", 1)) + len(stanzas)   [C16]
 //@   loop 2 decreases len(sr.r.$rem)
 //@   ensures#phase1 err == nil ==> calls("writeStanza", 1) == old(calls("writeStanza", 1)) + 1 && calls("writeStanza", 2) == old(calls("writeStanza", 2)) + 1 && calls("writeStanza", 3) == old(calls("writeStanza", 3)) + 1 && calls("Marshal", 1) == old(calls("Marshal", 1)) + len(stanzas)   [C16]
